@@ -6,7 +6,7 @@ Observable: after EVERY eat_chunk / finish call,  exn;name:length:len(data),...;
 
 A case is {'op':'mem', 'fmt', 'sizes':[...], 'cont':0|1, 'fin':k, 'k':label} plus the stream, given as
   'n','bg','p'            background ('z' zeros | 'f' 0xff | 'a' one long ASCII line | 'T<seed>' / 'R<seed>' text / random with
-                          a 64 KiB period — these are shipped to the model as block + patches; 'r<seed>' random | 't<seed>'
+                          a 64 KiB period | 'B<hex>' the given block repeated — these are shipped to the model as block + patches; 'r<seed>' random | 't<seed>'
                           text of the C01 generators) of length n with patches [[offset, hex], ...] applied in order (the C01 representation), or
   'hostile': [seed, tier, index]   the index-th image of tools/imgbuild.hostile_images(Random(seed), tier).
 sizes = chunk sizes (rest = one more chunk, 0 = empty chunk); cont=1: keep feeding the object after an exception;
@@ -66,12 +66,13 @@ def data_of(c):
         _last[0], _last[1] = key, d
     return _last[1]
 
-PERIODIC = 'zfaTR'
+PERIODIC = 'zfaTRB'
 def block_of(bg):
     """the block a periodic background repeats (fast to build, and shipped to the model instead of the stream)"""
     if bg == 'z': return b'\0' * 4096
     if bg == 'f': return b'\xff' * 4096
     if bg == 'a': return b'A' * 4096
+    if bg[0] == 'B': return bytes.fromhex(bg[1:])          # an explicit block (the repeated-structure family)
     r = random.Random(int(bg[1:]))
     if bg[0] == 'T': return bytes(r.choices(TEXT, k=65536))
     if bg[0] == 'R': return r.randbytes(65536 - 7)
@@ -194,6 +195,68 @@ def sweep_chunking(rng, n, kind, tier):
     if kind == 2: return [65536] * (n // 65536)
     return [rng.choice([4096, 100000, 511])] * 40 + [MI]
 
+# ------------------------------------------------------------------ repeated structures: long streams in which EVERY sector / stride of
+# the format's natural unit carries a valid-looking instance of the structure the inspector parses there
+def render(n, patches):
+    b = bytearray(n)
+    for off, hx in patches:
+        v = bytes.fromhex(hx)[:max(0, n - off)]
+        b[off:off + len(v)] = v
+    return bytes(b)
+
+def iso_sector(typ, ident, lbs=2048, blocks=1000):
+    s = bytearray(2048)
+    s[0] = typ; s[1:6] = ident; s[6] = 1
+    s[80:88] = struct.pack('<L', blocks) + struct.pack('>L', blocks)
+    s[128:132] = struct.pack('<H', lbs) + struct.pack('>H', lbs)
+    return bytes(s)
+
+def repeated(rng, tier):
+    """-> (fmt, n, bg, patches, label)"""
+    big = tier != 'quick'
+    def length(): return rng.choice([600 * KI + 4096, 640 * KI, MI + 2048, 3 * MI] if big else [640 * KI, 700 * KI + 512, MI + 2048])
+    B = lambda blk: 'B' + bytes(blk).hex()
+    # ISO: a volume descriptor in every 2 KiB sector (the sequence never terminates)
+    idents = [b'CD001', b'BEA01', b'NSR02', b'NSR03', b'BOOT2', b'TEA01']
+    for typ, ident in [(1, b'CD001'), (2, b'CD001'), (0, b'BEA01'), (0, b'NSR02'), (0, b'NSR03'), (0, b'BOOT2'), (255, b'CD001'), (0, b'TEA01')]:
+        yield 'iso', length(), B(iso_sector(typ, ident)), [], 'rep:iso.%s.%d' % (ident.decode(), typ)
+    yield 'iso', length(), B(b''.join(iso_sector(rng.choice([0, 1, 2, 3]), i) for i in idents[:5])), [], 'rep:iso.mixed'
+    yield 'iso', length(), B(iso_sector(1, b'CD001', lbs=65535, blocks=U32)), [], 'rep:iso.maxsize'
+    # the 512-byte header formats: a valid header in every sector
+    for fmt in ('qcow2', 'qed', 'vhd', 'vdi', 'gpt', 'luks'):
+        for _ in range(2 if big else 1):
+            n0, p, _b = c01.BUILD[fmt](rng)
+            unit = 1024 if fmt == 'luks' else 512
+            yield fmt, length(), B(render(unit, p)), [], 'rep:%s.header' % fmt
+        # ... and the same stream to a few other inspectors
+        yield rng.choice(['raw', 'iso', 'vmdk', 'vhdx']), length(), B(render(512, c01.BUILD[fmt](rng)[1])), [], 'rep:cross.%s' % fmt
+    # VHDX: table entries repeated far beyond the declared counts
+    meta_e = c01.guid_le(c01.G_META) + struct.pack('<QII', 256 * KI, MI, 1)
+    vds_e = lambda io, il: c01.guid_le(c01.G_VDS) + struct.pack('<III', io, il, 0) + b'\0' * 4
+    other_e = c01.guid_le(c01.G_OTHER) + struct.pack('<III', 65536 + 8, 4, 0) + b'\0' * 4
+    for cnt in (1, 2047):
+        for ent, lab in [(vds_e(65536, 8), 'vds'), (vds_e(65536, U32), 'vds-max'), (other_e, 'other'), (meta_e, 'meta')]:
+            rth = struct.pack('<4sIII', b'regi', 0, cnt, 0)
+            mth = struct.pack('<8sHH', b'metadata', 0, cnt) + b'\0' * 20
+            rt = b''.join(c01.guid_le(c01.G_META) + struct.pack('<QII', 256 * KI + 64 * KI * (i % 7), MI, 1) for i in range(2047))
+            yield 'vhdx', 256 * KI + length(), B(ent), [P(0, b'vhdxfile'), P(192 * KI, rth + rt), P(256 * KI, mth)], 'rep:vhdx.%s.%d' % (lab, cnt)
+    # a metadata table header in every 64 KiB, entries everywhere else
+    yield 'vhdx', 256 * KI + length(), B(struct.pack('<8sHH', b'metadata', 0, 2047) + b'\0' * 20 + vds_e(65536, U32) * 2047), \
+        [P(0, b'vhdxfile'), P(192 * KI, struct.pack('<4sIII', b'regi', 0, 1, 0) + meta_e)], 'rep:vhdx.tables'
+    # VMDK: descriptor sectors, marker sectors, footer triples, headers — in every sector
+    hdr = lambda footer, dn=U64: c01.sparse_header(1, 2048, 1, dn, c01.GD_AT_END if footer else 21)
+    dsec = (c01.descriptor(rng) + b'\n' * 512)[:512]
+    line = (b'RW 2048 SPARSE "disk.vmdk"\n' * 20)[:512]
+    marker = struct.pack('<QII', 1, 0, 3) + b'\0' * 496
+    eos = struct.pack('<QII', 0, 0, 0) + b'\0' * 496
+    for footer in (False, True):
+        yield 'vmdk', length(), B(dsec), [P(0, hdr(footer))], 'rep:vmdk.descriptor%s' % ('+footer' if footer else '')
+        yield 'vmdk', length(), B(line), [P(0, hdr(footer)), P(512, c01.descriptor(rng))], 'rep:vmdk.extents%s' % ('+footer' if footer else '')
+        yield 'vmdk', length(), B(marker), [P(0, hdr(footer, 4))], 'rep:vmdk.markers%s' % ('+footer' if footer else '')
+        yield 'vmdk', length(), B(marker + hdr(False, 4) + b'\0' * 448 + eos), [P(0, hdr(footer, 4))], 'rep:vmdk.footers%s' % ('+footer' if footer else '')
+        yield 'vmdk', length(), B(hdr(footer) + b'\0' * 448), [], 'rep:vmdk.headers%s' % ('+footer' if footer else '')
+    yield 'vmdk', length(), B(dsec), [], 'rep:vmdk.text-descriptor'
+
 def big_chunkings(rng, n, tier):
     """few large chunks (the list model is quadratic in the number of chunks per region)"""
     out = [[n]]
@@ -219,6 +282,13 @@ def gen_cases(rng, tier):
     for fmt, n, bg, p, lab in own_hostile(rng, tier):
         ch = big_chunkings(rng, n, tier)
         if tier == 'quick': ch = [ch[0], rng.choice(ch[1:])] if lab != 'plain' else [rng.choice(ch)]
+        for sizes in ch:
+            cont, fin = modes(rng, len(sizes) + 1)
+            yield {'op': 'mem', 'fmt': fmt, 'n': n, 'bg': bg, 'p': p, 'sizes': sizes, 'cont': cont, 'fin': fin, 'k': lab}
+    # 1a. repeated structures
+    for fmt, n, bg, p, lab in repeated(rng, tier):
+        ch = big_chunkings(rng, n, tier)
+        ch = [ch[0], rng.choice(ch[1:])] if tier == 'quick' else ch[:3]
         for sizes in ch:
             cont, fin = modes(rng, len(sizes) + 1)
             yield {'op': 'mem', 'fmt': fmt, 'n': n, 'bg': bg, 'p': p, 'sizes': sizes, 'cont': cont, 'fin': fin, 'k': lab}
@@ -321,13 +391,16 @@ def search(rng, budget):
             for sizes in big_chunkings(rng, ln, 'quick')[:2]:
                 n += 1
                 yield {'op': 'mem', 'fmt': fmt, 'n': ln, 'bg': bg, 'p': p, 'sizes': sizes, 'cont': 0, 'fin': len(sizes) + 2, 'k': 'search:' + lab}
+        for fmt, ln, bg, p, lab in repeated(rng, 'thorough'):
+            n += 1
+            yield {'op': 'mem', 'fmt': fmt, 'n': ln, 'bg': bg, 'p': p, 'sizes': [ln], 'cont': 0, 'fin': 3, 'k': 'search:' + lab}
         for fmt, ln, bg, p, lab, kind in field_sweep(rng, 'thorough'):
             for kd in (0, 1):
                 n += 1
                 sizes = sweep_chunking(rng, ln, kd, 'thorough')
                 yield {'op': 'mem', 'fmt': fmt, 'n': ln, 'bg': bg, 'p': p, 'sizes': sizes, 'cont': 0, 'fin': len(sizes) + 2, 'k': 'search:' + lab}
 
-RULE = ('field sweep: every field of every structure the VHDX and VMDK inspectors parse, ignored ones included (region-table checksum/count/reserved, entry offset/length/required, metadata reserved words/count, item offset/length/flags/reserved, size; every SparseExtentHeader field) one at a time over {0,1,2^16-1,2^16,2^31,2^32-1,2^32,2^63,2^64-1, other fields +-1} + contradictory length pairs, tail >= 1 MiB, as one chunk / 1 MiB chunks / 64 KiB chunks; hostile family ( (VMDK descriptor sector counts 2047..2^64-1 with/without footer flag, bad descriptor sector, text-descriptor mode; '
+RULE = ('repeated structures: 0.6-3 MiB streams in which every sector/stride carries a valid-looking instance of what the inspector parses there (ISO volume descriptors of every identifier/type in every 2 KiB sector; a valid qcow2/qed/vhd/vdi/gpt/luks header in every sector; VHDX region/metadata entries repeated beyond the declared counts, table headers every 64 KiB; VMDK descriptor / extent-line / marker / footer-triple / header sectors); field sweep: every field of every structure the VHDX and VMDK inspectors parse, ignored ones included (region-table checksum/count/reserved, entry offset/length/required, metadata reserved words/count, item offset/length/flags/reserved, size; every SparseExtentHeader field) one at a time over {0,1,2^16-1,2^16,2^31,2^32-1,2^32,2^63,2^64-1, other fields +-1} + contradictory length pairs, tail >= 1 MiB, as one chunk / 1 MiB chunks / 64 KiB chunks; hostile family ( (VMDK descriptor sector counts 2047..2^64-1 with/without footer flag, bad descriptor sector, text-descriptor mode; '
         'VHDX item lengths up to 2^32-1, table counts 2047/2048/65535/2^32-1, announced metadata length 2^32-1, missing size item, 2047 metadata '
         'entries; every format on 3-6 MiB text/random/zero/0xff/one-line streams and on its valid image + long tail) x (one giant chunk, 64 KiB..2 MiB '
         'chunks, random cuts with empty chunks); tools/imgbuild.hostile_images; the C01 structured generators with fine chunkings; x call protocols '
